@@ -543,9 +543,131 @@ def handler(payload):
                                        "reexport": H(SrkTable.parse(data).export())}, conv=lambda v: v)
         return out
 
+    def op_hist(c):
+        """History stream: second export / recomputation on the SAME object, and a change followed by export vs a fresh object."""
+        kind = c["kind"]
+        out = {}
+        if kind == "rot":
+            inputs = [encode(kid, enc) for kid, enc in c["keys"]]
+            holder = {}
+
+            def mk():
+                holder["r"] = Rot(c["family"], "latest", keys_or_certs=inputs)
+                return 0
+            r = g(mk)
+            if r[0] != "ok":
+                return {"build": r}
+            ro = holder["r"]
+            out = {"build": ["ok", 0], "hash1": g(lambda: ro.calculate_hash()), "export1": g(lambda: ro.export()),
+                   "hash2": g(lambda: ro.calculate_hash()), "export2": g(lambda: ro.export()), "hash3": g(lambda: ro.calculate_hash())}
+            return out
+        if kind == "hab":
+            from spsdk.image.secret import SrkItem, SrkTable
+
+            def table(kes):
+                t = SrkTable()
+                for kid, enc in kes:
+                    t.append(SrkItem.from_certificate(Certificate.parse(encode(kid, enc))))
+                return t
+            holder = {}
+
+            def mk():
+                holder["t"] = table(c["keys"])
+                return 0
+            r = g(mk)
+            if r[0] != "ok":
+                return {"build": r}
+            t = holder["t"]
+            out = {"build": ["ok", 0], "fuses1": g(lambda: t.export_fuses()), "export1": g(lambda: t.export()),
+                   "fuses2": g(lambda: t.export_fuses()), "export2": g(lambda: t.export())}
+            if c.get("append"):
+                def chg():
+                    t.append(SrkItem.from_certificate(Certificate.parse(encode(*c["append"]))))
+                    f = table(c["keys"] + [c["append"]])
+                    return {"export": H(t.export()), "fuses": H(t.export_fuses()), "fresh_export": H(f.export()), "fresh_fuses": H(f.export_fuses())}
+                out["changed"] = g(chg, conv=lambda v: v)
+            return out
+        if kind == "cb1":
+            kids, used = c["keys"], c["used"]
+
+            def build(u, image_length=None, alignment=None):
+                cb = CertBlockV1(build_number=c.get("build", 0))
+                cb.add_certificate(make_cert(kids[u], False))
+                for i, kid in enumerate(kids):
+                    cb.set_root_key_hash(i, Certificate.parse(make_cert(kid, False)))
+                if image_length:
+                    cb.image_length = image_length
+                if alignment:
+                    cb.alignment = alignment
+                return cb
+            holder = {}
+
+            def mk():
+                holder["cb"] = build(used)
+                return 0
+            r = g(mk)
+            if r[0] != "ok":
+                return {"build": r}
+            cb = holder["cb"]
+            out = {"build": ["ok", 0], "rkth0": g(lambda: cb.rkth), "export1": g(lambda: cb.export()), "rkth1": g(lambda: cb.rkth),
+                   "export2": g(lambda: cb.export()), "rkth2": g(lambda: cb.rkth), "fuses2": g(lambda: list(cb.rkth_fuses))}
+
+            def chg():
+                cb.image_length = c["new_image_length"]
+                cb.alignment = c["new_alignment"]
+                f = build(used, c["new_image_length"], c["new_alignment"])
+                return {"export": H(cb.export()), "fresh_export": H(f.export()), "rkth": H(cb.rkth), "fresh_rkth": H(f.rkth)}
+            out["changed"] = g(chg, conv=lambda v: v)
+            return out
+        if kind == "cb21":
+            def build(u, ud, signer):
+                inputs = [encode(kid, enc) for kid, enc in c["keys"]]
+                sp = None
+                if c.get("isk"):
+                    cs = (priv[c["keys"][u][0]].public_key().curve.key_size + 7) // 8
+                    sp = HashSigner(2 * cs) if signer == "hash" else KeySigner(c["keys"][u][0])
+                cb = CertBlockV21(root_certs=inputs, ca_flag=not c.get("isk"), used_root_cert=u, constraints=c.get("constraints", 0),
+                                  signature_provider=sp, isk_cert=encode(c["isk"], "raw") if c.get("isk") else None,
+                                  user_data=ud or None, family=c.get("family"))
+                cb.calculate()
+                return cb, sp
+            holder = {}
+            ud = bytes.fromhex(c.get("user_data", ""))
+
+            def mk():
+                holder["cb"], holder["sp"] = build(c["used"], ud, c.get("signer", "hash"))
+                return 0
+            r = g(mk)
+            if r[0] != "ok":
+                return {"build": r}
+            cb, sp = holder["cb"], holder["sp"]
+            out = {"build": ["ok", 0], "rkth0": g(lambda: cb.rkth), "export1": g(lambda: cb.export()), "rkth1": g(lambda: cb.rkth),
+                   "export2": g(lambda: cb.export()), "rkth2": g(lambda: cb.rkth)}
+            # explicit refresh steps of the API, then a third export
+            def refresh():
+                cb.calculate()
+                if cb.isk_certificate:
+                    cb.isk_certificate.create_isk_signature(cb.root_key_record.export(), force=True)
+                return cb.export()
+            out["export3"] = g(refresh)
+            out["signed"] = ["ok", [H(m) for m in sp.messages]] if sp else ["ok", []]
+            if c.get("new_used") is not None:
+                def chg():
+                    cb.root_key_record.used_root_cert = c["new_used"]
+                    cb.calculate()
+                    plain = H(cb.export())                         # what a user gets after calculate() + export()
+                    if cb.isk_certificate:
+                        cb.isk_certificate.create_isk_signature(cb.root_key_record.export(), force=True)
+                    forced = H(cb.export())                        # after the explicit re-sign step
+                    f, _ = build(c["new_used"], ud, "hash")
+                    return {"export": plain, "export_resigned": forced, "fresh_export": H(f.export()), "rkth": H(cb.rkth), "fresh_rkth": H(f.rkth)}
+                out["changed"] = g(chg, conv=lambda v: v)
+            return out
+        raise ValueError(kind)
+
     OPS = {"rot": op_rot, "cli": op_cli, "rkht": op_rkht, "keyhash": op_keyhash, "cb1": op_cb1, "cb21": op_cb21,
            "pfr": op_pfr, "dc": op_dc, "hab": op_hab, "parse21": op_parse21,
-           "parse1": op_parse1}
+           "parse1": op_parse1, "hist": op_hist}
     results = []
     for c in payload["cases"]:
         try:
